@@ -456,7 +456,15 @@ pub fn run_labels()
 			location_of_declaration: loc(),
 			location_of_return_type: loc(),
 		};
-		let out = penne::alpha::scoper::verif_label_analyze(vec![decl]);
+		let out = match std::panic::catch_unwind(move || penne::alpha::scoper::verif_label_analyze(vec![decl]))
+		{
+			Ok(out) => out,
+			Err(_) =>
+			{
+				println!("PANIC");
+				continue;
+			}
+		};
 		match out.into_iter().next()
 		{
 			Some(Declaration::Function { body: Ok(body), .. }) =>
